@@ -251,13 +251,21 @@ func (s EC2API) CreateFleet(in *ec2.CreateFleetInput) (*ec2.CreateFleetOutput, e
 	w.polls = 0
 	now := time.Now()
 	ids := make([]*string, 0, total)
-	for i := int64(0); i < total; i++ {
+	got := total
+	if w.FleetShort > 0 && int64(w.FleetShort) < total {
+		got = total - int64(w.FleetShort)
+		extra["short"] = fmt.Sprint(w.FleetShort)
+	}
+	for i := int64(0); i < got; i++ {
 		id := w.newInstanceID("fleet")
 		w.EC2[id] = &Inst{ID: id, State: "pending", Launch: now, Fleet: true}
 		ids = append(ids, awsapi.String(id))
 		e.IDs = append(e.IDs, id)
 	}
 	out := &ec2.CreateFleetOutput{FleetId: awsapi.String("fleet-1")}
+	if got < total {
+		out.Errors = []*ec2.CreateFleetError{{ErrorCode: awsapi.String("InsufficientInstanceCapacity"), ErrorMessage: awsapi.String("insufficient capacity for part of the request")}}
+	}
 	split := w.FleetSplit
 	if split < 1 {
 		split = 1
